@@ -29,11 +29,16 @@ type leakSvc struct {
 	closed int
 	dep    *leakSvc
 	eng    *leakRun
+	kind   int // 1 scoped, 2 transient, 4 singleton
 }
 
 func (s *leakSvc) Close() error {
 	s.closed++
 	simrt.Yield(siteCloseEnter)
+	if r := s.eng; r != nil && r.closeFailNow && r.c.CloseFailKinds&s.kind != 0 {
+		r.closeFaults++
+		return errLeakClose
+	}
 	return nil
 }
 
@@ -50,11 +55,15 @@ type leakCase struct {
 	FailPos    int  // which initializer fails (0 or 1)
 	UseWatcher bool // cancel the creation context of every 7th scope instead of closing it
 	Double     bool // call Close twice
+	// every k-th cycle the Close methods of the cycle's scoped (1) / transient (2) instances fail
+	CloseFailEvery int
+	CloseFailKinds int
 }
 
 func (c *leakCase) Describe() map[string]any {
 	return map[string]any{"engine": "leak-sim", "cycles": c.N, "nesting": c.Nest, "creation_context": []string{"long-lived caller context", "nil ctx on long-lived parent scope", "background"}[c.ParentKind],
-		"initializer_fails_every": c.FailEvery, "failing_initializer": c.FailPos, "close_by_cancel_every_7th": c.UseWatcher, "double_close": c.Double}
+		"initializer_fails_every": c.FailEvery, "failing_initializer": c.FailPos, "close_by_cancel_every_7th": c.UseWatcher, "double_close": c.Double,
+		"instance_close_fails_every": c.CloseFailEvery, "failing_close_kinds(1=scoped,2=transient)": c.CloseFailKinds}
 }
 
 func decodeLeakCase(tier string, idx int, tape *Tape) *leakCase {
@@ -78,29 +87,38 @@ func decodeLeakCase(tier string, idx int, tape *Tape) *leakCase {
 	}
 	c.UseWatcher = tape.Choose(StOps, 3) == 0
 	c.Double = tape.Choose(StOps, 4) == 0
+	if tape.Choose(StFault, 2) == 1 {
+		c.CloseFailEvery = 1 + tape.Choose(StFault, 3)
+		c.CloseFailKinds = 1 + tape.Choose(StFault, 3)
+	}
 	return c
 }
 
 type leakRun struct {
-	c         *leakCase
-	creation  int // scope creations so far (for fault positions)
-	failNow   bool
-	nextID    int
-	weakSvc   []weak.Pointer[leakSvc]
-	svcKind   []string
-	weakScp   []weak.Pointer[byte]
-	closedOK  []*int // close counters survive (tiny) so that exactly-once can be checked
-	vs        []Violation
-	faults    int
-	initRuns  int
-	builtSvcs int
+	c            *leakCase
+	creation     int // scope creations so far (for fault positions)
+	failNow      bool
+	nextID       int
+	weakSvc      []weak.Pointer[leakSvc]
+	svcKind      []string
+	weakScp      []weak.Pointer[byte]
+	closedOK     []*int // close counters survive (tiny) so that exactly-once can be checked
+	vs           []Violation
+	faults       int
+	closeFailNow bool
+	closeFaults  int
+	initRuns     int
+	builtSvcs    int
 }
 
 var errInitFail = errors.New("injected initializer failure")
+var errLeakClose = errors.New("injected Close failure")
 
 // track registers a weak pointer to a freshly constructed service.
 func (r *leakRun) track(kind string, s *leakSvc) {
 	s.id = r.nextID
+	s.eng = r
+	s.kind = map[string]int{"scoped": 1, "transient": 2, "singleton": 4}[kind]
 	r.nextID++
 	r.weakSvc = append(r.weakSvc, weak.Make(s))
 	r.svcKind = append(r.svcKind, kind)
@@ -221,6 +239,7 @@ func (e *leakEngine) exec(c *leakCase, tape *Tape) *RunOut {
 					add("C14.setup", "create-child", "cycle %d: child scope: %v", i, err)
 				}
 			}
+			r.closeFailNow = c.CloseFailEvery > 0 && i%c.CloseFailEvery == 0
 			if child != nil && c.Nest == 1 {
 				child.Close()
 			}
@@ -238,6 +257,7 @@ func (e *leakEngine) exec(c *leakCase, tape *Tape) *RunOut {
 					s.Close()
 				}
 			}
+			r.closeFailNow = false
 			if s.Context().Err() == nil {
 				add("C14.ctx", "not-cancelled", "cycle %d: Context().Err() is nil after the scope was closed", i)
 			}
@@ -323,6 +343,7 @@ func (e *leakEngine) exec(c *leakCase, tape *Tape) *RunOut {
 		prov.Close()
 	}
 	out.Faults["initializer-error"] += r.faults
+	out.Faults["close-error"] += r.closeFaults
 	out.Violations = r.vs
 	out.Steps = sim.Steps()
 	out.SchedHash = sim.Hash()
